@@ -625,6 +625,15 @@ class Tracker:
     def call(self, n: Node, a: ast.Call, places: Set[str], env: Dict[str, str], unk: bool, target: Optional[ast.AST]):
         meth = a.func.attr
         recv = a.func.value
+        if isinstance(recv, ast.IfExp):
+            # `(a if cond else b).add(x)`: the method acts on the arm the condition selects (both when it cannot be told)
+            tv = self.truth(recv.test, frozenset(places), env)
+            outs = []
+            for arm, want in ((recv.body, True), (recv.orelse, False)):
+                if tv is None or tv == want:
+                    a2 = ast.copy_location(ast.Call(func=ast.copy_location(ast.Attribute(value=arm, attr=meth, ctx=ast.Load()), a.func), args=a.args, keywords=a.keywords), a)
+                    outs += self.call(n, a2, set(places), dict(env), unk, target)
+            return outs
         c = self.coll(recv, env)
         if meth == "pop" and not a.args and c is not None:
             outs = []
